@@ -4,10 +4,17 @@
    a collector never changes destination; and what the model functions do case by case (zero timeout: one
    message per entry at once; open collector: append; none: new collector with one timer at now + timeout;
    timeout: send_sd of exactly the collected entries to the collector's destination).
-   NOT proved: the deadline clause end-to-end through the loop model (that the timer created by
-   queue_send_new fires at its deadline is the loop model's iteration rule); checked on every run. *)
+   On the full loop model (Model/Stack.v), for every scenario, schedule and reachable state: an open collector owns
+   its pending uncancelled timeout (WorldInv), timer callbacks run exactly at their deadline (WorldTime), every pending
+   collector timeout lies within [now, now + collection timeout] and an entry just queued sits last in the open
+   collector of its destination with such a deadline (WorldDeadline), and a completed run leaves no collector whose
+   deadline was due (WorldDone).  Together with C15_timeout_sends_collected this is the "in time, exactly once, in
+   order" chain link by link.
+   NOT proved as ONE statement: the trace-level composition (the bytes in the out trace of a whole run decode to
+   exactly the queued entries per destination); that composition is what the correspondence and the extracted
+   check_C15 decide on every run. *)
 From PS Require Import Lib.Base Generated.Consts Model.SdTypes Model.Config Model.Session Model.StackTypes Model.Stack
-  Model.StackIO Spec.AnnSpec Proofs.QueueProofs Proofs.WorldInv Proofs.WorldTime.
+  Model.StackIO Spec.AnnSpec Proofs.QueueProofs Proofs.WorldInv Proofs.WorldTime Proofs.WorldDone Proofs.WorldDeadline.
 
 Theorem C15_conservation : forall ops s d, QInv s ->
   sent_for d (snd (q_run s ops)) ++ pending_for (fst (q_run s ops)) d = pending_for s d ++ queued_for d ops.
@@ -56,6 +63,41 @@ Theorem C15_timeouts_run_exactly_at_their_deadline : forall arrivals rv w, Tinv 
   /\ Tinv (iteration arrivals rv w) /\ now (iteration arrivals rv w) = now w.
 Proof. exact iteration_on_time. Qed.
 
+(* deadline bound, end to end: in every reachable state of every scenario each open collector has its timeout pending,
+   uncancelled, not overdue and at most one collection timeout away *)
+Theorem C15_open_collectors_flush_within_the_timeout : forall s sc, d_scenario s = Some sc ->
+  let w := fst (run_scenario sc) in
+  G w /\ Tinv w /\ Jc w
+  /\ forall c, open_coll w c = true ->
+       exists when, In (when, c, HCollector c) (timers w) /\ memN c (cancelled w) = false
+                    /\ now w <= when <= now w + t_collect (cfg w).
+Proof. exact reachable_collectors_in_time. Qed.
+
+(* one queued entry: it is the last element of the open collector registered for its destination, whose timeout is
+   pending, uncancelled and due no later than now + collection timeout *)
+Theorem C15_queued_entry_has_a_deadline : forall e d w, G w -> Jc w -> t_collect (cfg w) <> 0 ->
+  let w' := queue_send e d w in
+  exists c co, open_collector w' d = Some (c, co) /\ last (co_data co) e = e /\ In e (co_data co)
+    /\ In (c, HCollector c) (tided w') /\ memN c (cancelled w') = false
+    /\ (forall when, In (when, c, HCollector c) (timers w') -> when <= now w + t_collect (cfg w)).
+Proof. exact queued_entry_has_a_deadline. Qed.
+
+(* the invariant Jc is kept by every callback of the stack and by every run *)
+Theorem C15_deadline_bound_kept_by_every_callback : forall h w, Jc w -> Jc (exec h w).
+Proof. intros h w Hj. eapply Jc_cext; [apply C_exec|exact Hj]. Qed.
+Theorem C15_deadline_bound_kept_by_every_run : forall fuel events t_end rv w, Jc w -> Jc (fst (run fuel events t_end rv w)).
+Proof. exact Jc_run. Qed.
+
+(* a completed run to t_end: no runnable handle is left and whatever collector is still open is due after t_end *)
+Theorem C15_completed_run_leaves_no_overdue_collector : forall fuel events t_end rv w w', G w ->
+  run fuel events t_end rv w = (w', true) ->
+  ready w' = [] /\ forall c, open_coll w' c = true -> exists when, In (when, c, HCollector c) (timers w') /\ t_end < when.
+Proof.
+  intros fuel events t_end rv w w' Hg Hrun. destruct (run_complete _ _ _ _ _ _ Hrun) as [Hr Hl].
+  split; [exact Hr|]. intros c Ho. apply (quiescent_collector t_end w'); try assumption.
+  replace w' with (fst (run fuel events t_end rv w)) by (rewrite Hrun; reflexivity). apply G_run. exact Hg.
+Qed.
+
 (* non-vacuity of the checker's domain restriction: an ordinary offer entry is encodable, one with a 17-bit instance id is not *)
 Example C15_unencodable_examples :
   unencodable (mkEntry ET_OfferService 4369 1 1 3 7 [] [] None) = false
@@ -63,6 +105,11 @@ Example C15_unencodable_examples :
 Proof. vm_compute. split; reflexivity. Qed.
 
 Print Assumptions C15_conservation.
+Print Assumptions C15_open_collectors_flush_within_the_timeout.
+Print Assumptions C15_queued_entry_has_a_deadline.
+Print Assumptions C15_deadline_bound_kept_by_every_callback.
+Print Assumptions C15_deadline_bound_kept_by_every_run.
+Print Assumptions C15_completed_run_leaves_no_overdue_collector.
 Print Assumptions C15_timeouts_run_exactly_at_their_deadline.
 Print Assumptions C15_open_collector_owns_its_timeout.
 Print Assumptions C15_in_every_reachable_state.
